@@ -384,7 +384,23 @@ Path_drw = path_type("drw", docstring="path to a directory that exists and is re
 
 register_type(os.PathLike, str, str)
 register_type(complex)
-register_type_on_first_use("decimal.Decimal", float)
+
+
+def decimal_serializer(value):
+    """A float when that float's shortest repr denotes exactly the same number, otherwise the decimal's own string."""
+    from decimal import Decimal
+
+    as_float = float(value)
+    return as_float if Decimal(repr(as_float)) == value else str(value)
+
+
+def decimal_deserializer(value):
+    from decimal import Decimal
+
+    return Decimal(repr(value) if isinstance(value, float) else value)
+
+
+register_type_on_first_use("decimal.Decimal", decimal_serializer, decimal_deserializer)
 register_type_on_first_use("uuid.UUID")
 
 for _path in [pathlib.Path, pathlib.PosixPath, pathlib.WindowsPath]:
